@@ -315,6 +315,9 @@ def _mk_tile_compressor(
 
     tile_shape = meta.chunks
     encoder = TIFF.COMPRESSORS[meta.compression]
+    if meta.compression == 1:
+        # COMPRESSION.NONE: tifffile's "compressor" hands the array back, tiles are the raw bytes
+        encoder = None
 
     predictor = None
     if meta.predictor != 1:
